@@ -233,6 +233,7 @@ class Cx:
         s.set("timeout", FEAS_TIMEOUT_MS)
         s.add(*self.axioms)
         s.add(*self.distinct_consts_axiom())
+        s.add(*_v.DEFS)
         s.add(*cs)
         self.feas_checks += 1
         return s.check() != z3.unsat
@@ -927,7 +928,15 @@ class Interp:
                         return k(hk, st)
                 return raise_(st, "AttributeError", origin=("missing-attribute", h.cls, name))
             if h.kind in ("list", "dict", "set", "tuple"):
-                return k(VFunc("bmeth", self_ref=obj, base=h.kind, name=name), st)
+                if self.bi.has_method(h.kind, name) or name in ("keys", "values", "items", "get", "__len__", "count"):
+                    return k(VFunc("bmeth", self_ref=obj, base=h.kind, name=name), st)
+                if h.meta.get("opaque_iterable"):
+                    # an arbitrary iterable handed in by the caller may carry any attribute with any value
+                    has = z3.Function("has_attr_" + name, Val, z3.BoolSort())(cx.ref_val(obj))
+                    val = z3.Function("attr_" + name, Val, Val)(cx.ref_val(obj))
+                    return cx.branch(st, has, lambda a: k(VElem(val), a),
+                                     lambda b: raise_(b, "AttributeError", origin=("missing-attribute", h.kind, name)))
+                return raise_(st, "AttributeError", origin=("missing-attribute", h.kind, name))
         if isinstance(obj, VSlice) and name in ("start", "stop", "step"):
             return k(getattr(obj, name), st)
         if isinstance(obj, VSlice) and name == "indices":
@@ -949,6 +958,13 @@ class Interp:
             return k(VFunc("bmeth", self_ref=obj, base="objdict", name=name), st)
         if isinstance(obj, VStr):
             return k(VFunc("bmeth", self_ref=obj, base="str", name=name), st)
+        if isinstance(obj, VFunc) and obj.kind == "class":
+            if obj.name in ("list", "dict", "set") and self.bi.has_method(obj.name, name):
+                return k(VFunc("unbound", base=obj.name, name=name), st)      # list.extend(self, ...)
+            if obj.name in cx.classes:
+                found = self.find_method(obj.name, name)
+                if found is not None and found[0] == "repo":
+                    return k(VFunc("unbound_repo", cls=found[1], name=name, node=found[2]), st)
         if isinstance(obj, VFunc) and obj.kind == "repo" and getattr(obj, "module", None) == "itertools" \
                 and obj.name == "chain" and name == "from_iterable":
             return k(VFunc("builtin", name="chain.from_iterable"), st)
@@ -1046,6 +1062,11 @@ class Interp:
                 raise Unsupported("call of %s.%s: no contract and not inlinable" % (fv.cls, fv.name))
             if fv.kind == "lambda":
                 return self.inline_call(fv.node, fv.cls, list(args), kwargs, st, k, fv.env)
+            if fv.kind == "unbound" and args and isinstance(args[0], VRef):
+                return self.bi.call_method(fv.base, fv.name, args[0], list(args[1:]), kwargs, st, k)
+            if fv.kind == "unbound_repo" and args and isinstance(args[0], VRef):
+                return self.call(VFunc("bound", self_ref=args[0], cls=fv.cls, name=fv.name, node=fv.node),
+                                 list(args[1:]), kwargs, st, k)
             if fv.kind == "opaque":
                 return fv.apply(self, args, kwargs, st, k)
             if fv.kind == "repo":
